@@ -85,7 +85,7 @@ where
     let mut len = 0;
 
     loop {
-        let src = reader.fill_buf()?;
+        let src = fill_buf(reader)?;
 
         if r#match.is_some() || src.is_empty() {
             break;
@@ -114,6 +114,27 @@ where
     }
 
     Ok((len, is_eol))
+}
+
+// `BufRead::fill_buf` does not retry when the underlying reader is interrupted.
+fn fill_buf<R>(reader: &mut R) -> io::Result<&[u8]>
+where
+    R: BufRead,
+{
+    let len = loop {
+        match reader.fill_buf() {
+            Ok(buf) => break buf.len(),
+            Err(ref e) if e.kind() == io::ErrorKind::Interrupted => {}
+            Err(e) => return Err(e),
+        }
+    };
+
+    if len == 0 {
+        Ok(&[])
+    } else {
+        // The buffer is not empty: this does not read from the underlying reader.
+        reader.fill_buf()
+    }
 }
 
 #[cfg(test)]
